@@ -208,7 +208,9 @@ def validate(
     if not scenarios:
         raise Machinery(f"no events recorded for {module}")
     total = sum(len(s) for s in scenarios)
-    nsh = max(1, min(shards, len(scenarios), (total + 199) // 200))
+    # at most `shards` TLC processes at a time; big recordings are cut into more (smaller) pieces so that no single
+    # TLC process has to hold more than ~25k events
+    nsh = max(1, min(max(shards, (total + 24999) // 25000), len(scenarios), (total + 199) // 200))
     buckets: list[list[dict]] = [[] for _ in range(nsh)]
     sizes = [0] * nsh
     for s in sorted(scenarios, key=len, reverse=True):
@@ -217,7 +219,7 @@ def validate(
         sizes[k] += len(s)
     base = scratch("tv")
     try:
-        with ThreadPoolExecutor(max_workers=nsh) as ex:
+        with ThreadPoolExecutor(max_workers=min(nsh, max(1, shards))) as ex:
             futs = [ex.submit(_run_trace_shard, module, cfg, b, k, base, timeout, env or {}) for k, b in enumerate(buckets)]
             vs = [f.result() for f in futs]
     finally:
